@@ -1,0 +1,7 @@
+//go:build !verif
+
+package lime
+
+// verifPoint marks a point where a verification build may pause a goroutine.
+// Without the "verif" build tag it does nothing.
+func verifPoint(string) {}
